@@ -25,7 +25,7 @@ def run(pid, tier, seed):
     if tier == "thorough":
         mcs.append(vlib.mc_or_die("MC_Mailbox", "MC_Mailbox_mid.cfg", workers=14, timeout=3000))
         mcs.append(vlib.mc_or_die("MC_Mailbox", "MC_Mailbox_big.cfg", workers=14, timeout=1500, partial_ok=True))
-        mcs.append(vlib.mc_or_die("MC_Mailbox", "MC_Mailbox_live.cfg", workers=8, timeout=1800, expect_actions=[])  # liveness run: the consumer never quits by configuration)
+        mcs.append(vlib.mc_or_die("MC_Mailbox", "MC_Mailbox_live.cfg", workers=8, timeout=1800, expect_actions=[]))  # liveness run: the consumer never quits by configuration
     for m in mcs:
         if m["violated"]:
             # a design-level counterexample; by construction of this check it only counts when the
